@@ -40,7 +40,8 @@ What I need from you:
    machine - re-run that package alone to tell - does not count against you).
 4. A demonstration: a new test file `zz_demo_test.go` in the most convenient package (it may use the package's own test
    helpers, e.g. testcluster / testutil, and internal APIs) with ONE test function `TestZZDemo` that FAILS with your change and
-   PASSES without it (check both: `git stash` / `git stash pop`, or apply the diff in reverse), deterministically or at least
+   PASSES without it (check both: save `git diff > patch.diff`, then `git apply -R patch.diff` / `git apply patch.diff`; NEVER use
+   `git stash` - the stash is shared between all worktrees of the repository and other people are working in theirs), deterministically or at least
    in 9 of 10 runs.  Keep it under about a minute.
 5. The earlier changes made for this property manifest under these conditions - produce something DIFFERENT (a different
    mechanism at a different place, not a variation of one of these):
